@@ -447,17 +447,29 @@ fn call_tc(tc: &TransferControl, op: &Op) -> Ret {
             }
             Op::Resume(p, f, o) => match tc.request_resume(peer(*p), *f, *o) {
                 Ok(o) => Ret::ResumeOk(o),
-                Err(ResumeRejection::WrongFileIndex { requested, current }) => Ret::ResumeWrongFile(requested, current),
-                Err(ResumeRejection::OutOfWindow) => Ret::ResumeOutOfWindow,
-                Err(ResumeRejection::Cancelled) => Ret::ResumeCancelled,
+                Err(e) => {
+                    // `ResumeRejection::reason()` (wire string) is exercised, not part of C11 / C13
+                    std::hint::black_box(e.reason().len());
+                    match e {
+                        ResumeRejection::WrongFileIndex { requested, current } => Ret::ResumeWrongFile(requested, current),
+                        ResumeRejection::OutOfWindow => Ret::ResumeOutOfWindow,
+                        ResumeRejection::Cancelled => Ret::ResumeCancelled,
+                    }
+                }
             },
             Op::Credit(l) => {
                 // deadline already reached: one pass through the wait loop, never parks
                 let deadline = Instant::now();
                 match tc.wait_for_credit(*l, deadline) {
                     Ok(()) => Ret::CreditOk,
-                    Err(repe::CreditError::Cancelled(r)) => Ret::CreditCancelled(r),
-                    Err(repe::CreditError::Timeout) => Ret::CreditTimeout,
+                    Err(e) => {
+                        // `Display` / `Error` of CreditError are exercised, not part of C11
+                        std::hint::black_box(e.to_string().len());
+                        match e {
+                            repe::CreditError::Cancelled(r) => Ret::CreditCancelled(r),
+                            repe::CreditError::Timeout => Ret::CreditTimeout,
+                        }
+                    }
                 }
             }
             Op::Reconnect => match tc.wait_for_reconnect(Duration::ZERO) {
